@@ -252,14 +252,22 @@ class Xray(object):
     def __init__(self, element):
         self.element = element
 
+    def _element_symbol(self):
+        # x-ray data does not depend on the isotope: ion -> isotope -> element
+        el = self.element
+        while hasattr(el, 'element'):
+            el = el.element
+        return el.symbol
+
     def _gettable(self):
         if self._table is None:
             # Load table when necessary; note there is no table for
             # neutrons (n), and lowercase nitrogen=> n.nff, so it must
             # be checked for explicitly.
-            filename = os.path.join(self._nff_path,
-                                    self.element.symbol.lower()+".nff")
-            if self.element.symbol != 'n' and os.path.exists(filename):
+            # Note: ions of D and T have symbol D, T but use the table for H.
+            symbol = self._element_symbol()
+            filename = os.path.join(self._nff_path, symbol.lower()+".nff")
+            if symbol != 'n' and os.path.exists(filename):
                 xsf = numpy.loadtxt(filename, skiprows=1).T
                 xsf[1, xsf[1] == -9999.] = numpy.nan
                 xsf[0] *= 0.001  # Use keV in table rather than eV
@@ -327,7 +335,7 @@ class Xray(object):
         """
         from . import cromermann
         f = cromermann.fxrayatq(Q=Q,
-                                symbol=self.element.symbol,
+                                symbol=self._element_symbol(),
                                 charge=self.element.charge)
         return f
 
